@@ -30,6 +30,20 @@ type sweeper struct {
 	nChild   atomic.Int64
 	nDied    atomic.Int64
 	seq      atomic.Int64
+	tag      string // prefix of the scratch file names (the patient re-runner shares base)
+	patient  bool   // this sweeper is the patient re-runner: its "live" outcomes are final
+	nRetried atomic.Int64
+	nRescued atomic.Int64
+}
+
+// patientSweeper re-runs single calls with a much longer deadline: a call that was still RUNNING (not
+// blocked) after deadline + interrupt + grace may simply have been starved of CPU on a loaded box.
+func (s *sweeper) patientSweeper() *sweeper {
+	d := 10 * s.deadline
+	if d < 120*time.Second {
+		d = 120 * time.Second
+	}
+	return &sweeper{c: s.c, base: s.base, deadline: d, grace: 60 * time.Second, workers: 2, batch: 1, tag: "patient-", patient: true}
 }
 
 func newSweeper(c *lib.Ctx) (*sweeper, error) {
@@ -51,14 +65,14 @@ func (s *sweeper) close() { os.RemoveAll(s.base) }
 func (s *sweeper) childRun(calls []call, from, to int) (outs []outcome, pending int, done bool, stderrTail string, err error) {
 	n := s.seq.Add(1)
 	// the child gets a job file holding only its own slice of the calls
-	job := filepath.Join(s.base, fmt.Sprintf("job-%d.json", n))
+	job := filepath.Join(s.base, fmt.Sprintf("%sjob-%d.json", s.tag, n))
 	jb, _ := json.Marshal(calls[from:to])
 	if e := os.WriteFile(job, jb, 0o644); e != nil {
 		return nil, -1, false, "", lib.Infra("%v", e)
 	}
 	defer os.Remove(job)
-	prog := filepath.Join(s.base, fmt.Sprintf("progress-%d", n))
-	errPath := filepath.Join(s.base, fmt.Sprintf("stderr-%d", n))
+	prog := filepath.Join(s.base, fmt.Sprintf("%sprogress-%d", s.tag, n))
+	errPath := filepath.Join(s.base, fmt.Sprintf("%sstderr-%d", s.tag, n))
 	defer os.Remove(prog)
 	defer os.Remove(errPath)
 	errF, e := os.Create(errPath)
@@ -67,6 +81,9 @@ func (s *sweeper) childRun(calls []call, from, to int) (outs []outcome, pending 
 	}
 	per := s.deadline + s.grace + time.Second
 	limit := 120 + int((time.Duration(to-from) * per / 4).Seconds())
+	if min := 120 + int(per.Seconds()); limit < min {
+		limit = min // one call may use its whole deadline + grace
+	}
 	self, e := os.Executable()
 	if e != nil {
 		return nil, -1, false, "", lib.Infra("%v", e)
@@ -246,6 +263,35 @@ func (s *sweeper) run(orig []call) ([]outcome, error) {
 	for i := range have {
 		if !have[i] {
 			return nil, lib.Infra("no outcome recorded for call %d (%s)", i, orig[i].Code)
+		}
+	}
+	// "live" (still running, not blocked) is not believed at once: each such call is re-run alone in a
+	// fresh child with a much longer deadline and THAT outcome is the recorded one.  Blocked verdicts
+	// (every goroutine of the evaluation blocked) are not touched.
+	if !s.patient {
+		var again []call
+		var ids []int
+		for i, o := range outs {
+			if o.Outcome == "live" {
+				again = append(again, orig[i])
+				ids = append(ids, i)
+			}
+		}
+		if len(again) > 0 {
+			s.nRetried.Add(int64(len(again)))
+			o2, err := s.patientSweeper().run(again)
+			if err != nil {
+				return nil, err
+			}
+			for k, i := range ids {
+				o := o2[k]
+				o.ID = i
+				if o.Outcome != "live" {
+					s.nRescued.Add(1)
+					o.Slow = true
+				}
+				outs[i] = o
+			}
 		}
 	}
 	return outs, nil
